@@ -62,4 +62,31 @@ def traceGOps : World → List (GOp × Tape) → List (Except GErr World)
     | .error e => [.error e]
     | .ok w' => .ok w' :: traceGOps w' rest
 
+/-! ## One tape threaded through a sequence of operations
+
+`runGOps` gives every operation its own tape (the harness re-seeds the oracle before each component
+call).  Inside ONE `step()` / `reset()` of a simulation the random draws of successive component
+calls come from one stream: `runGOpSeq` returns what an operation left of the tape, `runGOpsSeq`
+hands it on to the next one.  (Moves draw nothing.) -/
+
+/-- one operation, returning the world **and the rest of the tape** -/
+def runGOpSeq (w : World) (t : Tape) : GOp → Except GErr (World × Tape)
+  | .move c =>
+    if decide (c.agent < w.n) && (w.stOf c.agent).active && c.inSpace w then
+      (runMoveCall w c).map fun o => (o.post, t)
+    else .ok (w, t)
+  | .attack cfg a act =>
+    if decide (a < w.n) && (w.stOf a).active then
+      (processAttack cfg w a act t).map fun r => (r.2.1, r.2.2)
+    else .ok (w, t)
+  | .reset cs => applyComps cs w t
+
+/-- a sequence of operations on ONE tape; an operation that raises ends it -/
+def runGOpsSeq : World → Tape → List GOp → Except GErr (World × Tape)
+  | w, t, [] => .ok (w, t)
+  | w, t, op :: rest =>
+    match runGOpSeq w t op with
+    | .error e => .error e
+    | .ok (w', t') => runGOpsSeq w' t' rest
+
 end Abmarl
